@@ -13,6 +13,10 @@ Local Open Scope Z_scope.
 Ltac split_andb :=
   repeat match goal with
          | H : _ && _ = true |- _ => apply andb_true_iff in H; destruct H
+         end;
+  repeat match goal with
+         | H : (_ =? _) = true |- _ => apply Z.eqb_eq in H
+         | H : (_ <=? _) = true |- _ => apply Z.leb_le in H
          end.
 
 Lemma is_kconst_base nl dflt st ins k c : is_kconst nl k c = true ->
@@ -72,7 +76,7 @@ Proof. reflexivity. Qed.
 Lemma keep_dest_facts d : cp_keep_dest nl d = true ->
   rho d = d /\ ~ In d K /\ width_of nl' d = width_of nl d.
 Proof.
-  unfold cp_keep_dest. intros H. split_andb. split; [lia|]. split; [|lia].
+  unfold cp_keep_dest. intros H. split_andb. split; [assumption|]. split; [|assumption].
   intro Hc. apply mem_in_In in Hc.
   match goal with H : negb _ = true |- _ => rewrite Hc in H; discriminate end.
 Qed.
@@ -82,7 +86,7 @@ Lemma alias_const_facts st' ins v' d k c :
   (forall k0, In k0 K -> v' k0 = base_val nl' dflt st' ins k0) ->
   rho d = k /\ In k K /\ (declared nl' k = true -> v' k = c).
 Proof.
-  unfold cp_alias_const. intros H HK. split_andb. split; [lia|].
+  unfold cp_alias_const. intros H HK. split_andb. split; [assumption|].
   assert (Hin : In k K) by (apply mem_in_In; assumption).
   split; [assumption|]. intros Hd.
   match goal with H : (if declared _ _ then _ else _) = true |- _ => rewrite Hd in H;
@@ -101,8 +105,9 @@ Qed.
 Lemma sound_pre_facts n : cp_sound_pre nl n = true ->
   width_of nl (ndest n) <= width_of nl (arg n 0) /\ binary_same_width nl n.
 Proof.
-  unfold cp_sound_pre, binary_same_width. intros H. split_andb. split; [lia|].
-  destruct (nargs n) as [|a [|b [|c r]]]; auto. lia.
+  unfold cp_sound_pre, binary_same_width. intros H. apply andb_true_iff in H. destruct H as [H1 H2].
+  split; [apply Z.leb_le; assumption|].
+  destruct (nargs n) as [|a [|b [|c r]]]; auto. apply Z.eqb_eq. assumption.
 Qed.
 
 Lemma cp_Hstep : forall pre n post, nets nl = pre ++ n :: post -> is_comb (nop n) = true ->
@@ -156,7 +161,7 @@ Proof.
     intros a Ha.
     match goal with H : forallb _ (nargs n) = true |- _ => rewrite forallb_forall in H;
       specialize (H a Ha); apply andb_true_iff in H; destruct H as [Hdcl Hwa] end.
-    split; [apply (Hsim a Ha); assumption|lia].
+    split; [apply (Hsim a Ha); assumption|apply Z.eqb_eq; assumption].
   - (* folded to a constant *)
     apply andb_true_iff in Hn. destruct Hn as [Hpre Hn].
     pose proof (Hsound ltac:(discriminate) Hpre) as Hx. cbv beta iota in Hx.
@@ -166,11 +171,11 @@ Proof.
         destruct (keep_dest_facts _ H) as [Hrd [HdK Hw]] end.
       split; [reflexivity|]. split; [reflexivity|]. split; [|split; assumption].
       unfold exec_spec, argvals. cbn [nop nargs ndest map op_spec]. f_equal.
-      assert (Hk : rho (cp_kid nl n) = cp_kid nl n) by lia. rewrite Hk.
+      match goal with H : rho (cp_kid nl n) = cp_kid nl n |- _ => rewrite H end.
       rewrite (inv_K _ _ _ _ _ _ _ _ _ _ _ _ HI) by (apply mem_in_In; assumption).
       match goal with H : is_kconst _ _ _ = true |- _ =>
         rewrite (is_kconst_base _ dflt st' ins _ _ H) end.
-      rewrite Hw, Hx. apply Z.mod_mod. apply Z.pow_nonzero; lia.
+      rewrite Hw, Hx. apply Z.mod_mod. apply Z.pow_nonzero; [discriminate|exact Hwd0].
     + left. split; [reflexivity|].
       destruct (alias_const_facts st' ins v' _ _ _ Hn (inv_K _ _ _ _ _ _ _ _ _ _ _ _ HI))
         as [Hrd [HkK Hval]].
@@ -191,7 +196,7 @@ Proof.
       unfold exec_spec, argvals. cbn [nop nargs ndest map op_spec]. f_equal.
       rewrite <- Hvw by assumption. rewrite Hw, Hwd1, Hx. apply Z.mod_small.
       rewrite Hww in Hrw. exact Hrw.
-    + left. split; [reflexivity|]. assert (Hrd : rho (ndest n) = rho w) by lia. split.
+    + left. split; [reflexivity|]. assert (Hrd : rho (ndest n) = rho w) by (apply Z.eqb_eq; assumption). split.
       * intros Hl. unfold live, declared' in Hl. rewrite Hrd in *. rewrite Hx. apply Hvw. exact Hl.
       * rewrite Hrd. assumption.
   - (* replaced by an inverter of the other (one-bit) wire *)
@@ -206,9 +211,9 @@ Proof.
     split; [reflexivity|]. split; [reflexivity|]. split; [|split; assumption].
     unfold exec_spec, argvals. cbn [nop nargs ndest map op_spec]. f_equal.
     rewrite <- Hvw by assumption.
-    assert (Hw' : width_of nl' (rho w) = 1) by lia. rewrite Hw', Hw, Hwd1, Hx.
+    assert (Hw' : width_of nl' (rho w) = 1) by congruence. rewrite Hw', Hw, Hwd1, Hx.
     rewrite Hww in Hrw. unfold inrange in Hrw. change (2 ^ 1) with 2 in *.
-    apply Z.mod_small. lia.
+    apply Z.mod_small. clear - Hrw. lia.
 Qed.
 
 Lemma reg_arity n : In n (nets nl) -> nop n = OpReg -> exists a0, nargs n = [a0].
@@ -236,7 +241,7 @@ Proof.
     split; [match goal with H : negb _ = true |- _ => destruct (cp_folded nl (ndest n)); [discriminate H|reflexivity] end|].
     split.
     + destruct (reg_arity n Hin Eop) as [a0 Ea]. unfold arg, map_args. cbn [nargs]. rewrite Ea. reflexivity.
-    + split; [lia|assumption].
+    + split; assumption.
   - left. split_andb.
     match goal with H : negb (is_output _ _) = true |- _ =>
       destruct (is_output nl (ndest n)); [discriminate H|] end.
@@ -244,7 +249,7 @@ Proof.
     + unfold cp_folded. apply existsb_exists. exists n. split; [assumption|].
       unfold cp_fold_net. rewrite Eop, Edec, Z.eqb_refl. reflexivity.
     + intros st ins v Hb.
-      rewrite (base_const nl dflt st ins v _ Hb) by assumption. lia.
+      rewrite (base_const nl dflt st ins v _ Hb) by assumption. symmetry. assumption.
 Qed.
 
 Lemma cp_Hwr : forall n m, In n (nets nl) -> nop n = OpMemWr m ->
@@ -276,7 +281,7 @@ Proof.
   - (* a folded register: represented by its constant *)
     pose proof Ef as Ef'. unfold cp_folded in Ef'. apply existsb_exists in Ef'.
     destruct Ef' as [n [Hin Hn]]. apply andb_true_iff in Hn. destruct Hn as [Hfn Hd].
-    assert (Hdw : ndest n = w) by lia. subst w.
+    assert (Hdw : ndest n = w) by (apply Z.eqb_eq; assumption). subst w.
     unfold cp_fold_net in Hfn.
     destruct (nop n) eqn:Eop; try discriminate Hfn.
     destruct (cp_decide nl n) eqn:Edec; try discriminate Hfn.
@@ -286,7 +291,7 @@ Proof.
     match goal with H : cp_alias_const _ _ _ _ = true |- _ =>
       unfold cp_alias_const in H end.
     split_andb.
-    assert (Hrd : rho (ndest n) = cp_kid nl n) by lia.
+    assert (Hrd : rho (ndest n) = cp_kid nl n) by assumption.
     split.
     + intros Hl. unfold live, declared' in Hl. rewrite Hrd in *.
       match goal with H : (if declared _ _ then _ else _) = true |- _ =>
@@ -299,7 +304,7 @@ Proof.
         destruct (wkind x0); try discriminate H; reflexivity end.
     + rewrite Hrd. apply in_or_app. left. apply mem_in_In. assumption.
   - cbn [orb] in Hb. apply andb_true_iff in Hb. destruct Hb as [Hr Hsame].
-    assert (Hrd : rho w = w) by lia. rewrite Hrd. split; [|apply in_or_app; right; assumption].
+    assert (Hrd : rho w = w) by (apply Z.eqb_eq; assumption). rewrite Hrd. split; [|apply in_or_app; right; assumption].
     intros Hl. unfold live, declared' in Hl. rewrite Hrd in Hl.
     unfold declared in Hsame. rewrite Hl in Hsame. apply owire_eqb_eq in Hsame.
     unfold base_val. rewrite Hsame.
@@ -312,14 +317,15 @@ Lemma cp_Hcomb_tr : forall n, In n (nets nl) -> is_comb (nop n) = true ->
 Proof.
   intros n Hin Hc n''. unfold cp_tr, cp_res, cp_apply.
   destruct (cp_decide nl n); [|destruct (is_output nl (ndest n))|destruct (is_output nl (ndest n))|];
-    cbn [fst snd map]; intros [<-|[]]; try reflexivity. exact Hc.
+    cbn [fst snd map]; intros Hi; simpl in Hi;
+    try contradiction; destruct Hi as [<-|Hi]; try contradiction; try reflexivity; exact Hc.
 Qed.
 
 Theorem cp_pass_sim : forall inss st st', st_rel (cp_folded nl) (cp_cst nl) st st' ->
   Forall (legal_ins nl) inss -> legal_regs nl (sregs st) ->
-  Forall2 (sim_val nl nl' rho) (fst (run nl dflt st inss)) (fst (run nl' dflt st' inss)).
+  Forall2 (OptSimProofs.sim_val nl nl' rho) (fst (run nl dflt st inss)) (fst (run nl' dflt st' inss)).
 Proof.
-  exact (sim_run nl nl' (cp_tr nl) rho K (cp_folded nl) (cp_cst nl) dflt Hwf Hnets Hmems
+  exact (OptSimProofs.sim_run nl nl' (cp_tr nl) rho K (cp_folded nl) (cp_cst nl) dflt Hwf Hnets
            cp_Hstep cp_Hreg cp_Hwr cp_Hbase cp_Hcomb_tr).
 Qed.
 
